@@ -107,12 +107,20 @@ func (this *RaftGroup) VerifPost(fn func(lastApplied uint64)) bool {
 	}
 }
 
+// VerifTick delivers n logical ticks the way the real ticker does: one per
+// iteration of the ready loop's select, each handed to the raft node before the
+// next one is issued (in production at most one tick is ever in flight, so an
+// election timeout cannot elapse while a single Ready is being processed).
 func (this *RaftGroup) VerifTick(n int) bool {
-	return this.VerifOnLoop(func(uint64) {
-		for i := 0; i < n; i++ {
-			this.raft.Tick()
+	for i := 0; i < n; i++ {
+		if !this.VerifOnLoop(func(uint64) { this.raft.Tick() }) {
+			return false
 		}
-	})
+		// round trips through the node's own goroutine: lets it consume the tick
+		this.raft.Status()
+		this.raft.Status()
+	}
+	return true
 }
 
 func (this *RaftGroup) VerifCampaign() {
